@@ -58,6 +58,12 @@ type Program struct {
 	spillDone  map[*ssa.Function]bool
 	modsets    map[*ssa.Function]map[*types.Var]bool
 	astFuncs   map[*types.Func]*ast.FuncDecl
+	sentinels  map[*ssa.Global]bool
+
+	// Normalized lists the calls to new helpers that were expanded in place
+	// before analysis (inline.go); Source is the overlay actually analysed.
+	Normalized []string
+	Source     map[string][]byte
 }
 
 // Site is an instruction inside a function.
@@ -78,10 +84,18 @@ var Overlay map[string][]byte
 // Load loads /repo (dir) with the given build tags.
 func Load(dir, tags string) *Program {
 	os.Unsetenv("GOWORK")
+	ov := Overlay
+	Normalized = nil
+	if !NoInline && hasUnknownFuncs(dir, Overlay) {
+		ov = normalizeHelpers(dir, tags, Overlay)
+		for _, n := range Normalized {
+			fmt.Println("NORMALISED " + n)
+		}
+	}
 	cfg := &packages.Config{
 		Mode:    packages.LoadAllSyntax,
 		Dir:     dir,
-		Overlay: Overlay,
+		Overlay: ov,
 		Env: append(os.Environ(), "GOFLAGS=-mod=mod", "GOPROXY=off", "GOSUMDB=off",
 			"GOTOOLCHAIN=local", "GOWORK=off", "GOARCH=amd64", "GOOS=linux", "CGO_ENABLED=0"),
 		Tests: false,
@@ -97,7 +111,8 @@ func Load(dir, tags string) *Program {
 		undecided("load: zero packages")
 	}
 	p := &Program{Dir: dir, Tags: tags, SSA: map[string]*ssa.Package{}, Types: map[string]*types.Package{},
-		parent: map[*ssa.Function]*ssa.Function{}, infoMap: map[*ssa.Function]*FuncInfo{}}
+		parent: map[*ssa.Function]*ssa.Function{}, infoMap: map[*ssa.Function]*FuncInfo{},
+		Normalized: Normalized, Source: ov}
 	var errs []string
 	packages.Visit(pkgs, nil, func(pkg *packages.Package) {
 		for _, e := range pkg.Errors {
@@ -445,4 +460,55 @@ func (p *Program) Package(pkgShort string) *packages.Package {
 	}
 	undecided("no package %s", pkgShort)
 	return nil
+}
+
+// IsNew reports whether fn (or, for a closure, its enclosing top-level
+// function) is a repository function the rules do not know by name (see
+// knownFuncs): such helpers are transparent to every analysis.
+func (p *Program) IsNew(fn *ssa.Function) bool {
+	if fn == nil || !p.inRepo(fn) {
+		return false
+	}
+	r := Root(fn)
+	if r.Synthetic != "" {
+		return false
+	}
+	return !knownFuncs[r.String()]
+}
+
+// Scope lists fn, its closures, and every new helper (IsNew) statically
+// reachable from them, with their closures: "the function as it was before
+// parts of it were extracted".
+func (p *Program) Scope(fn *ssa.Function) []*ssa.Function {
+	seen := map[*ssa.Function]bool{}
+	var out []*ssa.Function
+	var add func(f *ssa.Function, depth int)
+	add = func(f *ssa.Function, depth int) {
+		if f == nil || seen[f] || depth > 4 {
+			return
+		}
+		seen[f] = true
+		out = append(out, f)
+		for _, c := range p.Closures(f) {
+			add(c, depth)
+		}
+		for _, b := range f.Blocks {
+			for _, in := range b.Instrs {
+				if ci, ok := in.(ssa.CallInstruction); ok {
+					if callee := ci.Common().StaticCallee(); callee != nil && p.IsNew(callee) && callee.Blocks != nil {
+						add(callee, depth+1)
+					}
+				}
+			}
+		}
+	}
+	add(fn, 0)
+	return out
+}
+
+// InstrsScope visits the instructions of every function in Scope(fn).
+func (p *Program) InstrsScope(fn *ssa.Function, f func(ssa.Instruction)) {
+	for _, g := range p.Scope(fn) {
+		Instrs(g, f)
+	}
 }
